@@ -782,6 +782,183 @@ Proof.
   rewrite unesc_render by exact H. cbn [unesc_go obind]. rewrite app_nil_r. reflexivity.
 Qed.
 
+(* ------------------------------------------------------------------ the ST_Xstring layer *)
+Lemma xs_hex_agree : forall h, is_ascii_hexdigit h = true -> hexval h = Some (to_digit16 h).
+Proof.
+  intros h H. unfold is_ascii_hexdigit, hexval, to_digit16, is_digit, ch_0, ch_9 in *.
+  destruct ((48 <=? h) && (h <=? 57)) eqn:E1.
+  - assert (E : h <=? 57 = true) by lia. rewrite E. reflexivity.
+  - destruct ((97 <=? h) && (h <=? 102)) eqn:E3.
+    + assert (E : h <=? 57 = false) by lia. assert (E' : h <=? 70 = false) by lia.
+      rewrite E, E'. reflexivity.
+    + destruct ((65 <=? h) && (h <=? 70)) eqn:E2; [|cbn [orb] in H; discriminate].
+      assert (E : h <=? 57 = false) by lia. assert (E' : h <=? 70 = true) by lia.
+      rewrite E, E'. reflexivity.
+Qed.
+
+Lemma xs_hex_disagree : forall h, is_ascii_hexdigit h = false -> hexval h = None.
+Proof.
+  intros h H. unfold is_ascii_hexdigit, hexval, is_digit, ch_0, ch_9 in *.
+  destruct ((48 <=? h) && (h <=? 57)); [discriminate|].
+  destruct ((65 <=? h) && (h <=? 70)); [discriminate|].
+  destruct ((97 <=? h) && (h <=? 102)); [discriminate|]. reflexivity.
+Qed.
+
+Lemma xs_to_digit16_lt : forall h, is_ascii_hexdigit h = true -> to_digit16 h < 16.
+Proof.
+  intros h H. unfold is_ascii_hexdigit, to_digit16 in *.
+  destruct (h <=? 57) eqn:E1; [lia|]. destruct (h <=? 70) eqn:E2; lia.
+Qed.
+
+(* one step of either decoder, as an equation *)
+Lemma xs_decode_cons : forall c s', xs_decode (c :: s') =
+  match s' with
+  | x :: h1 :: h2 :: h3 :: h4 :: u :: r =>
+    if (c =? 95) && (x =? 120) && (u =? 95) then
+      match hexval h1, hexval h2, hexval h3, hexval h4 with
+      | Some a, Some b, Some d, Some e =>
+        let v := a * 4096 + b * 256 + d * 16 + e in
+        if xs_surrogate v then c :: xs_decode s' else utf8_enc v ++ xs_decode r
+      | _, _, _, _ => c :: xs_decode s'
+      end
+    else c :: xs_decode s'
+  | _ => c :: xs_decode s'
+  end.
+Proof. intros c s'. reflexivity. Qed.
+
+Lemma ux_loop_cons : forall c s', ux_loop (c :: s') =
+  match s' with
+  | x :: h1 :: h2 :: h3 :: h4 :: u :: r =>
+    if (c =? 95) && (x =? 120) && (u =? 95) then
+      if forallb is_ascii_hexdigit [h1; h2; h3; h4] then
+        if is_scalar (fold_left (fun a h => a * 16 + to_digit16 h) [h1; h2; h3; h4] 0)
+        then utf8_enc (fold_left (fun a h => a * 16 + to_digit16 h) [h1; h2; h3; h4] 0) ++ ux_loop r
+        else c :: ux_loop s'
+      else c :: ux_loop s'
+    else c :: ux_loop s'
+  | _ => c :: ux_loop s'
+  end.
+Proof. intros c s'. reflexivity. Qed.
+
+(* the loop of the Rust function computes the specification's decoding *)
+Lemma ux_loop_spec_len : forall n s, (length s <= n)%nat -> ux_loop s = xs_decode s.
+Proof.
+  induction n as [|n IH]; intros s Hn.
+  - destruct s; [reflexivity | cbn [length] in Hn; lia].
+  - destruct s as [|c s']; [reflexivity|]. cbn [length] in Hn.
+    rewrite ux_loop_cons, xs_decode_cons.
+    assert (IHs : ux_loop s' = xs_decode s') by (apply IH; lia).
+    destruct s' as [|x [|h1 [|h2 [|h3 [|h4 [|u r]]]]]]; cbv beta iota; try (rewrite IHs; reflexivity).
+    assert (IHr : ux_loop r = xs_decode r) by (apply IH; cbn [length] in Hn; lia).
+    destruct ((c =? 95) && (x =? 120) && (u =? 95)); [|rewrite IHs; reflexivity].
+    cbn [forallb]. rewrite andb_true_r.
+    destruct (is_ascii_hexdigit h1) eqn:E1; [|rewrite (xs_hex_disagree h1 E1), IHs; reflexivity].
+    destruct (is_ascii_hexdigit h2) eqn:E2;
+      [|rewrite (xs_hex_agree h1 E1), (xs_hex_disagree h2 E2), IHs; reflexivity].
+    destruct (is_ascii_hexdigit h3) eqn:E3;
+      [|rewrite (xs_hex_agree h1 E1), (xs_hex_agree h2 E2), (xs_hex_disagree h3 E3), IHs; reflexivity].
+    destruct (is_ascii_hexdigit h4) eqn:E4;
+      [|rewrite (xs_hex_agree h1 E1), (xs_hex_agree h2 E2), (xs_hex_agree h3 E3), (xs_hex_disagree h4 E4), IHs;
+        reflexivity].
+    cbn [andb fold_left].
+    rewrite (xs_hex_agree h1 E1), (xs_hex_agree h2 E2), (xs_hex_agree h3 E3), (xs_hex_agree h4 E4).
+    pose proof (xs_to_digit16_lt h1 E1). pose proof (xs_to_digit16_lt h2 E2).
+    pose proof (xs_to_digit16_lt h3 E3). pose proof (xs_to_digit16_lt h4 E4).
+    cbv zeta.
+    replace ((((0 * 16 + to_digit16 h1) * 16 + to_digit16 h2) * 16 + to_digit16 h3) * 16 + to_digit16 h4)
+      with (to_digit16 h1 * 4096 + to_digit16 h2 * 256 + to_digit16 h3 * 16 + to_digit16 h4) by lia.
+    set (v := to_digit16 h1 * 4096 + to_digit16 h2 * 256 + to_digit16 h3 * 16 + to_digit16 h4).
+    assert (Hv : v < 65536) by (unfold v; lia).
+    unfold is_scalar, xs_surrogate.
+    destruct ((55296 <=? v) && (v <=? 57343)) eqn:ES.
+    + assert (X : (v <? 55296) || (57343 <? v) && (v <=? 1114111) = false) by lia.
+      rewrite X, IHs. reflexivity.
+    + assert (X : (v <? 55296) || (57343 <? v) && (v <=? 1114111) = true) by lia.
+      rewrite X, IHr. reflexivity.
+Qed.
+
+Lemma ux_loop_spec : forall s, ux_loop s = xs_decode s.
+Proof. intro s. apply ux_loop_spec_len with (n := length s). apply le_n. Qed.
+
+(* the early return `if !s.contains("_x") { return s }` changes nothing *)
+Lemma xs_no_ux_id : forall s, contains_ux s = false -> xs_decode s = s.
+Proof.
+  induction s as [|c s' IH]; intro H; [reflexivity|].
+  cbn [contains_ux] in H. apply orb_false_iff in H. destruct H as [H1 H2].
+  rewrite xs_decode_cons, (IH H2).
+  destruct s' as [|x [|h1 [|h2 [|h3 [|h4 [|u r]]]]]]; cbv beta iota; try reflexivity.
+  destruct (c =? 95); [|reflexivity]. cbn [andb] in H1. rewrite H1. reflexivity.
+Qed.
+
+(* M = S for the ST_Xstring layer: the Rust decoder is the format's decoding, for every string *)
+Theorem unescape_xstring_spec : forall s, unescape_xstring s = xs_decode s.
+Proof.
+  intro s. unfold unescape_xstring. destruct (contains_ux s) eqn:E.
+  - apply ux_loop_spec.
+  - symmetry. apply xs_no_ux_id. exact E.
+Qed.
+
+(* S on the writer's output *)
+Lemma hexval_xs_hexdigit : forall up d, d < 16 -> hexval (xs_hexdigit up d) = Some d.
+Proof.
+  intros up d H.
+  assert (E : d = 0 \/ d = 1 \/ d = 2 \/ d = 3 \/ d = 4 \/ d = 5 \/ d = 6 \/ d = 7 \/ d = 8 \/ d = 9 \/
+              d = 10 \/ d = 11 \/ d = 12 \/ d = 13 \/ d = 14 \/ d = 15) by lia.
+  destruct up; repeat (destruct E as [E|E]; [subst; reflexivity|]); subst; reflexivity.
+Qed.
+
+Lemma xs_decode_esc4 : forall up c t, c < 128 ->
+  xs_decode (xs_esc4 up c ++ t) = c :: xs_decode t.
+Proof.
+  intros up c t Hc. unfold xs_esc4. cbn [app]. rewrite xs_decode_cons. cbv beta iota.
+  change ((95 =? 95) && (120 =? 120) && (95 =? 95)) with true. cbv beta iota.
+  rewrite !hexval_xs_hexdigit by lia. cbv zeta.
+  replace (c / 4096 * 4096 + c / 256 mod 16 * 256 + c / 16 mod 16 * 16 + c mod 16) with c by lia.
+  assert (S : xs_surrogate c = false) by (unfold xs_surrogate; lia). rewrite S.
+  unfold utf8_enc. assert (L : (c <? 128) = true) by lia. rewrite L. reflexivity.
+Qed.
+
+Lemma xs_decode_plain : forall c t, (c =? 95) = false -> xs_decode (c :: t) = c :: xs_decode t.
+Proof.
+  intros c t H. rewrite xs_decode_cons.
+  destruct t as [|x [|h1 [|h2 [|h3 [|h4 [|u r]]]]]]; cbv beta iota; try reflexivity.
+  rewrite H. reflexivity.
+Qed.
+
+(* E then S: every name (any byte string), escaped the way Excel escapes it — with any choice of
+   the ASCII characters to escape and of the case of the digits — denotes itself *)
+Theorem xs_escape_roundtrip : forall up must s, xs_decode (xs_escape up must s) = s.
+Proof.
+  intros up must. induction s as [|c s IH]; [reflexivity|].
+  unfold xs_escape in *. cbn [flat_map].
+  destruct (c =? 95) eqn:E.
+  - cbn [orb]. rewrite xs_decode_esc4, IH; [reflexivity|]. apply N.eqb_eq in E. lia.
+  - cbn [orb]. destruct (must c && (c <? 128)) eqn:Em.
+    + apply andb_true_iff in Em. destruct Em as [_ Em]. rewrite xs_decode_esc4, IH by lia. reflexivity.
+    + cbn [app]. rewrite xs_decode_plain, IH by exact E. reflexivity.
+Qed.
+
+(* the usual attribute-value escaping spells every byte string legally, and as itself *)
+Lemma esc_piece_ok : forall c, piece_legal (esc_piece c) = true /\ piece_value (esc_piece c) = [c].
+Proof.
+  intros c. unfold esc_piece.
+  destruct ((c =? 38) || (c =? 60) || (c =? 62) || (c =? 34)) eqn:E1.
+  - split; [|reflexivity]. cbn [piece_legal]. rewrite !orb_true_iff in *. tauto.
+  - destruct (lit_ok c) eqn:E2.
+    + split; [|reflexivity]. cbn [piece_legal forallb]. rewrite E2. reflexivity.
+    + unfold lit_ok in E2. apply negb_false_iff in E2. rewrite !orb_false_iff in E1.
+      destruct E1 as [[[A B] _] D]. rewrite A, B, D in E2. cbn [orb] in E2.
+      rewrite !orb_true_iff, !N.eqb_eq in E2.
+      destruct E2 as [[E2|E2]|E2]; subst c; split; reflexivity.
+Qed.
+
+Lemma esc_sp_ok : forall s, sp_legal (esc_sp s) = true /\ sp_value (esc_sp s) = s.
+Proof.
+  unfold sp_legal, sp_value, esc_sp. induction s as [|c s [IH1 IH2]]; [split; reflexivity|].
+  destruct (esc_piece_ok c) as [P1 P2]. cbn [map forallb flat_map]. rewrite P1, IH1, P2, IH2.
+  split; reflexivity.
+Qed.
+
 (* ------------------------------------------------------------------ xlsx tables: the table part *)
 Lemma dec_head_digit : forall n, exists c t, dec n = c :: t /\ is_digit c = true.
 Proof.
@@ -912,18 +1089,41 @@ Qed.
 
 Lemma column_names_one : forall i sp extra,
   existsb (key_is s_name) extra = false -> sp_legal sp = true ->
-  column_names ([(s_id, i); (s_name, render_sp sp)] ++ extra) = Ok [sp_value sp].
+  column_names ([(s_id, i); (s_name, render_sp sp)] ++ extra) = Ok [col_value sp].
 Proof.
   intros i sp extra H HS. cbn [app column_names fst snd].
   assert (Q1 : str_eqb s_id s_name = false) by reflexivity. rewrite Q1. rewrite str_eqb_refl.
   rewrite unescape_render by exact HS. cbn [obind]. rewrite column_names_none by exact H.
-  reflexivity.
+  cbn [obind]. rewrite unescape_xstring_spec. reflexivity.
+Qed.
+
+(* column_name_exact: a column name in every legal spelling — XML escapes around or inside
+   _xHHHH_ escapes — reads back as the name the two layers declare; and the text of a header
+   cell, any byte string, written the way Excel writes it (ST_Xstring escaping of the underscore
+   and of any chosen ASCII characters, then the usual XML escaping) reads back as that text *)
+Theorem column_name_exact :
+  (forall sp, sp_legal sp = true ->
+     column_names [(s_name, render_sp sp)] = Ok [xs_decode (sp_value sp)]) /\
+  (forall up must s,
+     sp_legal (esc_sp (xs_escape up must s)) = true /\
+     col_value (esc_sp (xs_escape up must s)) = s /\
+     column_names [(s_name, render_sp (esc_sp (xs_escape up must s)))] = Ok [s]).
+Proof.
+  assert (A : forall sp, sp_legal sp = true ->
+            column_names [(s_name, render_sp sp)] = Ok [xs_decode (sp_value sp)]).
+  { intros sp HS. cbn [column_names fst snd]. rewrite str_eqb_refl.
+    rewrite unescape_render by exact HS. cbn [obind]. rewrite unescape_xstring_spec. reflexivity. }
+  split; [exact A|]. intros up must s.
+  destruct (esc_sp_ok (xs_escape up must s)) as [L V].
+  split; [exact L|]. split.
+  - unfold col_value. rewrite V. apply xs_escape_roundtrip.
+  - rewrite A by exact L. rewrite V, xs_escape_roundtrip. reflexivity.
 Qed.
 
 Lemma scan_table_columns : forall p extra cols i rest m acc,
   prefix_ok p = true -> existsb (key_is s_name) extra = false -> forallb sp_legal cols = true ->
   scan_table (enc_columns p extra i cols ++ rest) m acc =
-  scan_table rest m (acc ++ map sp_value cols).
+  scan_table rest m (acc ++ map col_value cols).
 Proof.
   intros p extra cols. induction cols as [|cn cols IH]; intros i rest m acc Hp HX HS.
   - cbn. rewrite app_nil_r. reflexivity.
@@ -951,7 +1151,7 @@ Lemma table_choice_legal_parts : forall tc, table_choice_legal tc = true ->
   insert_flag (snd tc) = tl_insert (fst tc) /\
   sp_legal (tc_name_sp (snd tc)) = true /\ sp_value (tc_name_sp (snd tc)) = tl_name (fst tc) /\
   forallb sp_legal (tc_cols_sp (snd tc)) = true /\
-  map sp_value (tc_cols_sp (snd tc)) = tl_cols (fst tc) /\
+  map col_value (tc_cols_sp (snd tc)) = tl_cols (fst tc) /\
   existsb table_special_key (tc_extra (snd tc)) = false /\
   existsb (key_is s_name) (tc_col_extra (snd tc)) = false /\
   prefix_ok (tc_prefix (snd tc)) = true /\
@@ -1872,6 +2072,10 @@ Definition x_H : str := [72].
 Definition x_X : str := [88].
 Definition x_PL : str := [80; 38; 76].                 (* "P&L" *)
 Definition x_blt : str := [98; 60; 195; 164].          (* "b<ä" *)
+Definition x_anb : str := [97; 10; 98].                (* "a", line feed, "b": a header typed with Alt+Enter *)
+Definition x_esclike : str := [95; 120; 48; 48; 48; 97; 95].   (* the seven characters "_x000a_" as text *)
+Definition x_eacute : str := [195; 169].               (* "é" *)
+Definition x_arb : str := [97; 13; 98].                (* "a", carriage return, "b" *)
 
 (* a plain choice: "../tables/table1.xml", transitional type, names escaped the usual way *)
 Definition choice_for (t : table_l) : table_choice :=
@@ -1894,22 +2098,31 @@ Definition ex_sheet_with (t : table_l) (c : table_choice) : sheet_e := ex_sheet_
 (* the example workbook uses every form that the first round had to except:
    table 1: strict relationship type, absolute target, display name "T1" written "T&#x31;",
             columns "P&L" written "P&amp;L" and "b<ä" written "b&#060;&#xE4;", insertRow="false";
-   table 2: header row only (B7:C7): no data rows;
-   table 3: totals row only, in row 1 (E1:F1): no data rows *)
+   table 2: header row only (B7:C7): no data rows; its column names use the ST_Xstring layer:
+            "a<LF>b" written a_x000a_b, the text "_x000a_" written _x005F_x000a_;
+   table 3: totals row only, in row 1 (E1:F1): no data rows; columns "é" written _x00e9_ (lower-case
+            digits) and "a<CR>b" written a_x00&#48;D_b (an escape spelled partly by a character
+            reference) *)
 Definition ex_t1 : table_l := mkTable x_T1 [x_PL; x_blt] ((1, 1), (4, 2)) 1 1 false.
 Definition ex_c1 : table_choice :=
   mkTableChoice x_table1 x_rId1 TgtAbsolute TyStrict true RefPair false false false IrFalse
                 [PLit [84]; PHex 49 2 true]
                 [[PLit [80]; PNamed 38; PLit [76]]; [PLit [98]; PDec 60 3; PHex 228 2 true]]
                 [] [] None [ERaw [60; 63; 120; 63; 62]].
-Definition ex_t2 : table_l := mkTable x_H [x_a; x_b] ((6, 1), (6, 2)) 1 0 false.
+Definition ex_t2 : table_l := mkTable x_H [x_anb; x_esclike] ((6, 1), (6, 2)) 1 0 false.
 Definition ex_c2 : table_choice :=
   mkTableChoice x_table2 x_rId2 TgtDotDot TyTransitional false RefPair true true true IrZero
-                [PLit x_H] [[PLit x_a]; [PLit x_b]] [] [] None [].
-Definition ex_t3 : table_l := mkTable x_X [x_a; x_b] ((0, 4), (0, 5)) 0 1 false.
+                [PLit x_H]
+                [[PLit [97; 95; 120; 48; 48; 48; 97; 95; 98]];                        (* a_x000a_b *)
+                 [PLit [95; 120; 48; 48; 53; 70; 95; 120; 48; 48; 48; 97; 95]]]       (* _x005F_x000a_ *)
+                [] [] None [].
+Definition ex_t3 : table_l := mkTable x_X [x_eacute; x_arb] ((0, 4), (0, 5)) 0 1 false.
 Definition ex_c3 : table_choice :=
   mkTableChoice x_table3 x_rId3 TgtDotDot TyStrict false RefPair false false true IrAbsent
-                [PLit x_X] [[PLit x_a]; [PLit x_b]] [] [] (Some [120]) [].
+                [PLit x_X]
+                [[PLit [95; 120; 48; 48; 101; 57; 95]];                               (* _x00e9_ *)
+                 [PLit [97; 95; 120; 48; 48]; PDec 48 2; PLit [68; 95; 98]]]          (* a_x00&#48;D_b *)
+                [] [] (Some [120]) [].
 Definition ex_wb : list sheet_e := [ex_sheet_tabs [(ex_t1, ex_c1); (ex_t2, ex_c2); (ex_t3, ex_c3)]].
 
 Lemma zip_has_sheets_build1 : forall s, zip_has_sheets (build_zip [s]) [s].
@@ -1928,11 +2141,11 @@ Example ex_wb_nonvacuous :
         (x_S1, s_xl_worksheets ++ x_sheet1, ((2, 26), (3, 702)))] /\
   read_table_metadata (build_zip ex_wb) (sheets_of ex_wb) =
     Ok [(x_T1, x_S1, [x_PL; x_blt], ((2, 1), (3, 2)));
-        (x_H, x_S1, [x_a; x_b], ((7, 1), (6, 2)));
-        (x_X, x_S1, [x_a; x_b], ((1, 4), (0, 5)))] /\
+        (x_H, x_S1, [x_anb; x_esclike], ((7, 1), (6, 2)));
+        (x_X, x_S1, [x_eacute; x_arb], ((1, 4), (0, 5)))] /\
   spec_tables ex_wb =
     [(x_T1, x_S1, [x_PL; x_blt], Some ((2, 1), (3, 2)));
-     (x_H, x_S1, [x_a; x_b], None); (x_X, x_S1, [x_a; x_b], None)].
+     (x_H, x_S1, [x_anb; x_esclike], None); (x_X, x_S1, [x_eacute; x_arb], None)].
 Proof.
   split; [vm_compute; reflexivity|].
   split; [apply wb_domb_ok; vm_compute; reflexivity|].
@@ -1950,13 +2163,13 @@ Qed.
    sheet's values, Empty (0) elsewhere; the two tables without data rows yield the empty range *)
 Example ex_table_data :
   let tables := [(x_T1, x_S1, [x_PL; x_blt], ((2, 1), (3, 2)));
-                 (x_H, x_S1, [x_a; x_b], ((7, 1), (6, 2)));
-                 (x_X, x_S1, [x_a; x_b], ((1, 4), (0, 5)))] in
+                 (x_H, x_S1, [x_anb; x_esclike], ((7, 1), (6, 2)));
+                 (x_X, x_S1, [x_eacute; x_arb], ((1, 4), (0, 5)))] in
   let range := fun _ : str => from_sparse 0 [((0, 0), 7); ((2, 1), 5)] in
   table_by_name 0 range tables x_T1 =
     Ok (x_T1, x_S1, [x_PL; x_blt], mkRange (2, 1) (3, 2) [5; 0; 0; 0]) /\
-  table_by_name 0 range tables x_H = Ok (x_H, x_S1, [x_a; x_b], empty) /\
-  table_by_name 0 range tables x_X = Ok (x_X, x_S1, [x_a; x_b], empty).
+  table_by_name 0 range tables x_H = Ok (x_H, x_S1, [x_anb; x_esclike], empty) /\
+  table_by_name 0 range tables x_X = Ok (x_X, x_S1, [x_eacute; x_arb], empty).
 Proof. repeat split; vm_compute; reflexivity. Qed.
 
 Example ex_cells_pre : pre (@empty N) (OFromSparse [((0, 0), 7); ((2, 1), 5)]).
